@@ -806,9 +806,10 @@ func main() {
 		if ndel >= 2 { // two failures in one pass
 			add(runSpec{faults: []fault{{0, "other"}, {1 + r.Intn(ndel-1), "other"}}})
 		}
-		// probe outside the fault model: a plain version delete answered with a compare failure
+		// a plain version delete answered with a compare failure (commit write conflict on TiKV): the key must be
+		// marked as failed like for any other error (former finding C07-F2)
 		for i := 0; i < ndel; i++ {
-			if kinds[i] == "KDel" && r.Chance(1, 3) {
+			if kinds[i] == "KDel" && r.Chance(1, 2) {
 				add(runSpec{faults: []fault{{i, "cas"}}})
 				break
 			}
